@@ -173,7 +173,7 @@ func driveC14(o opts) error {
 							continue
 						}
 						expected++
-						changes = append(changes, fmt.Sprintf("(%d%%N, %d%%N, %s)", syms.ID(t.Name), syms.ID(u), dyn.CoqOptRow(syms, a, inA)))
+						changes = append(changes, fmt.Sprintf("(%d%%N, %d%%N, %v, %s)", syms.ID(t.Name), syms.ID(u), !inB, dyn.CoqOptRow(syms, a, inA)))
 					}
 				}
 				changes = append(changes, forced...)
@@ -329,7 +329,7 @@ func driveC14(o opts) error {
 				// a notification the cache must refuse: a change to a row it does not hold
 				if g.Chance(0.2) {
 					ghost := gen.UUIDn(900000 + ti)
-					forced := []string{fmt.Sprintf("(%d%%N, %d%%N, None)", syms.ID("Q"), syms.ID(ghost))}
+					forced := []string{fmt.Sprintf("(%d%%N, %d%%N, false, None)", syms.ID("Q"), syms.ID(ghost))}
 					if v1 {
 						old := ovsdb.Row{"name": "x"}
 						tu := ovsdb.TableUpdates{"Q": ovsdb.TableUpdate{ghost: &ovsdb.RowUpdate{Old: &old}}}
@@ -340,6 +340,21 @@ func driveC14(o opts) error {
 						feed(label+" + refused notification", cur, cur, func() error { return tc.Update2(nil, tu) }, false, forced)
 					}
 					w.Count("refused-notification")
+				}
+				// ... and a row it already holds announced again as an insert (what an overlapping monitor sends)
+				if g.Chance(0.25) && len(cur["Q"]) > 0 {
+					us := sortedRowKeys(cur["Q"])
+					u := us[g.Intn(len(us))]
+					forced := []string{fmt.Sprintf("(%d%%N, %d%%N, true, %s)", syms.ID("Q"), syms.ID(u), dyn.CoqOptRow(syms, cur["Q"][u], true))}
+					row := lab.db.OvsRow("Q", cur["Q"][u])
+					if v1 {
+						tu := ovsdb.TableUpdates{"Q": ovsdb.TableUpdate{u: &ovsdb.RowUpdate{New: &row}}}
+						feed(label+" + re-announced insert", cur, cur, func() error { return tc.Update(nil, tu) }, false, forced)
+					} else {
+						tu := ovsdb.TableUpdates2{"Q": ovsdb.TableUpdate2{u: &ovsdb.RowUpdate2{Insert: &row}}}
+						feed(label+" + re-announced insert", cur, cur, func() error { return tc.Update2(nil, tu) }, false, forced)
+					}
+					w.Count("refused-reinsert")
 				}
 			}
 			for k, n := range kinds {
